@@ -1230,6 +1230,24 @@ func (a *arityFlow) filter(cond ssa.Value, m uint16, f *ssa.Function, depth int)
 			k, isLen, flipped = kk, true, true
 		}
 		if !isLen {
+			// an integer that stands for "not given" when it is zero (cnt, errReply := popCount(cmd); ... if cnt == 0):
+			// the argument counts with which it can be zero, and with which it can be something else
+			if x.Op == token.EQL || x.Op == token.NEQ {
+				var v ssa.Value
+				if kk, ok := constInt(x.Y); ok && kk == 0 {
+					v = x.X
+				} else if kk, ok := constInt(x.X); ok && kk == 0 {
+					v = x.Y
+				}
+				if v != nil && isIntType(v.Type()) {
+					if zm, nzm, ok := a.intZero(v, m, f, x.Block(), depth+1); ok {
+						if x.Op == token.EQL {
+							return zm, nzm
+						}
+						return nzm, zm
+					}
+				}
+			}
 			return m, m
 		}
 		op := x.Op
@@ -2077,4 +2095,227 @@ func (a *arityFlow) fieldTruth(rec ssa.Value, field int, m uint16, f *ssa.Functi
 		return m & tm, m & fm, any && all
 	}
 	return 0, 0, false
+}
+
+// intZero: the argument counts (within m) with which the integer v can be zero, and with which it can be non-zero, at a
+// use in block `use` of function f. v is a constant, a phi, a parameter bound inside the family, or a result of a family
+// helper; a helper's returns that also hand back a non-nil reply or error are left out when the use lies behind the
+// caller's test of that companion result. ok is false when v's origin is not understood.
+func (a *arityFlow) intZero(v ssa.Value, m uint16, f *ssa.Function, use *ssa.BasicBlock, depth int) (zm, nzm uint16, ok bool) {
+	if depth > 8 {
+		return 0, 0, false
+	}
+	switch x := v.(type) {
+	case *ssa.Const:
+		if k, isInt := constInt(x); isInt {
+			if k == 0 {
+				return m, 0, true
+			}
+			return 0, m, true
+		}
+	case *ssa.Phi:
+		all := true
+		for i, e := range x.Edges {
+			em := m
+			if i < len(x.Block().Preds) {
+				em = m & a.edge[[2]*ssa.BasicBlock{x.Block().Preds[i], x.Block()}]
+			}
+			z, nz, ok2 := a.intZero(e, em, f, x.Block().Preds[i], depth+1)
+			if !ok2 {
+				all = false
+			}
+			zm |= z
+			nzm |= nz
+		}
+		return zm, nzm, all
+	case *ssa.UnOp:
+		if x.Op == token.MUL {
+			if cv := a.cellValue(x.X, f); cv != nil {
+				return a.intZero(cv, m, f, use, depth+1)
+			}
+		}
+	case *ssa.Parameter:
+		idx := -1
+		for i, p := range f.Params {
+			if p == x {
+				idx = i
+			}
+		}
+		if idx < 0 || f == a.exec {
+			return 0, 0, false
+		}
+		any, all := false, true
+		for g := range a.family {
+			for _, b := range g.Blocks {
+				for _, in := range b.Instrs {
+					ci, isCall := in.(ssa.CallInstruction)
+					if !isCall || a.calleeOf(ci) != f || idx >= len(ci.Common().Args) {
+						continue
+					}
+					any = true
+					z, nz, ok2 := a.intZero(ci.Common().Args[idx], a.in[b], g, b, depth+1)
+					if !ok2 {
+						all = false
+					}
+					zm |= z
+					nzm |= nz
+				}
+			}
+		}
+		return m & zm, m & nzm, any && all
+	case *ssa.Extract:
+		call, isCall := x.Tuple.(*ssa.Call)
+		if !isCall {
+			return 0, 0, false
+		}
+		h := a.calleeOf(call)
+		if h == nil || !a.family[h] {
+			return 0, 0, false
+		}
+		// companion results the use lies behind a nil test of
+		nilTested := map[int]bool{}
+		if call.Referrers() != nil && use != nil {
+			for _, r := range *call.Referrers() {
+				ex, isEx := r.(*ssa.Extract)
+				if !isEx || ex.Index == x.Index {
+					continue
+				}
+				if _, isIface := ex.Type().Underlying().(*types.Interface); !isIface {
+					continue
+				}
+				for d := use; d != nil && d.Idom() != nil; d = d.Idom() {
+					id := d.Idom()
+					if len(d.Preds) != 1 || d.Preds[0] != id {
+						continue
+					}
+					cond, neg, okc := branchCond(id, d)
+					if !okc {
+						continue
+					}
+					bo, isBo := cond.(*ssa.BinOp)
+					if !isBo || (bo.Op != token.EQL && bo.Op != token.NEQ) {
+						continue
+					}
+					if !((bo.X == ssa.Value(ex) && isNilConst(bo.Y)) || (bo.Y == ssa.Value(ex) && isNilConst(bo.X))) {
+						continue
+					}
+					// d is entered when (cond != neg); the companion is nil there iff the test is == on its true edge or != on its false edge
+					if (bo.Op == token.EQL) != neg {
+						nilTested[ex.Index] = true
+					}
+				}
+			}
+		}
+		any, all := false, true
+		for _, b := range h.Blocks {
+			ret, isRet := b.Instrs[len(b.Instrs)-1].(*ssa.Return)
+			if !isRet || x.Index >= len(ret.Results) {
+				continue
+			}
+			any = true
+			bm := a.in[b]
+			if bm == 0 {
+				continue
+			}
+			rr := retResults(ret)
+			skip := false
+			for ci := range nilTested {
+				if ci < len(rr) {
+					nonNil := len(rr[ci]) > 0
+					for _, cv := range rr[ci] {
+						switch cv.(type) {
+						case *ssa.MakeInterface:
+						default:
+							nonNil = false
+						}
+					}
+					if nonNil {
+						skip = true // this return hands back a reply/error the caller has answered with already
+					}
+				}
+			}
+			if skip {
+				continue
+			}
+			for _, rv := range rr[x.Index] {
+				if _, isC := rv.(*ssa.Const); !isC {
+					if _, isPhi := rv.(*ssa.Phi); !isPhi {
+						// a computed value: non-zero when a dominating test of it says so, else either
+						if a.knownNonZero(rv, b) {
+							nzm |= bm
+						} else {
+							zm |= bm
+							nzm |= bm
+						}
+						continue
+					}
+				}
+				z, nz, ok2 := a.intZero(rv, bm, h, b, depth+1)
+				if !ok2 {
+					all = false
+				}
+				zm |= z
+				nzm |= nz
+			}
+		}
+		return m & zm, m & nzm, any && all
+	}
+	return 0, 0, false
+}
+
+// knownNonZero: block b is only entered when v != 0 (v > 0, !(v <= 0), v >= 1, ...).
+func (a *arityFlow) knownNonZero(v ssa.Value, b *ssa.BasicBlock) bool {
+	type edgeT struct{ from, to *ssa.BasicBlock }
+	// every path into b passes an edge that excludes zero: walk the dominator chain, and through short-circuit
+	// conditions (a || b leading away) by looking at each block with a single predecessor
+	for d := b; d != nil && d.Idom() != nil; d = d.Idom() {
+		id := d.Idom()
+		if len(d.Preds) != 1 || d.Preds[0] != id {
+			continue
+		}
+		cond, neg, ok := branchCond(id, d)
+		if !ok {
+			continue
+		}
+		bo, isBo := cond.(*ssa.BinOp)
+		if !isBo {
+			continue
+		}
+		var k int64
+		op := bo.Op
+		switch {
+		case bo.X == v:
+			kk, isK := constInt(bo.Y)
+			if !isK {
+				continue
+			}
+			k = kk
+		case bo.Y == v:
+			kk, isK := constInt(bo.X)
+			if !isK {
+				continue
+			}
+			k = kk
+			switch op {
+			case token.LSS:
+				op = token.GTR
+			case token.GTR:
+				op = token.LSS
+			case token.LEQ:
+				op = token.GEQ
+			case token.GEQ:
+				op = token.LEQ
+			}
+		default:
+			continue
+		}
+		truth := !neg // d is entered when cond == truth
+		switch {
+		case op == token.GTR && k >= 0 && truth, op == token.GEQ && k >= 1 && truth, op == token.NEQ && k == 0 && truth,
+			op == token.LEQ && k >= 0 && !truth, op == token.LSS && k >= 1 && !truth, op == token.EQL && k == 0 && !truth,
+			op == token.LSS && k <= 0 && truth, op == token.LEQ && k <= -1 && truth:
+			return true
+		}
+	}
+	return false
 }
